@@ -355,6 +355,11 @@ psRes_t psRsaPssVerify(psPool_t *pool,
     {
         return PS_ARG_FAIL;
     }
+    if (sigLen > key->keysize)
+    {
+        /* RFC 8017, 8.1.2 step 1: the signature is k octets. */
+        return PS_ARG_FAIL;
+    }
     em = psMalloc(pool, key->keysize);
     if (em == NULL)
     {
